@@ -156,6 +156,48 @@ def kernel_index(S, kind, B, diag):
                 S.prove_eq(dg[b], as_sym_arr(SH.get(rep(x1[b], x1[b], diag=True))), "diag element %d = replica diag" % b)
 
 
+def inducing_index(S, zbatch, mode):
+    """inducing-point (SGPR) kernel whose base kernel is batched, with inducing points shared by the batch or batched themselves:
+       batch-indexing the kernel / its lazily evaluated matrix (in training mode, or in evaluation mode with its caches
+       filled) gives replica b, and the batched kernel still evaluates correctly afterwards"""
+    B, M, n = 2, 2, 2
+    zb = (B,) if zbatch else ()
+    lik = gpytorch.likelihoods.GaussianLikelihood(batch_shape=torch.Size([B]))
+    base = K.ScaleKernel(K.RBFKernel(batch_shape=torch.Size([B])), batch_shape=torch.Size([B]))
+    Z = S.randn(*zb, M, 1, scale=0.8)
+    k = K.InducingPointKernel(base, Z.clone(), lik)
+    for p in k.parameters():
+        p.requires_grad_(False)
+    declare_params(S, base, "p_", scale=0.4)
+    Zs = S.sym_tensor(k.inducing_points, "u")
+    x1 = S.randn(n, 1, scale=0.8); S.sym_tensor(x1, "x")
+    x2 = x1 if mode == "train" else S.randn(3, 1, scale=0.8)
+    if mode != "train":
+        S.sym_tensor(x2, "z")
+    k.train(mode == "train")
+    with S.mode(), gpytorch.settings.sgpr_diagonal_correction(False):
+        reps = []
+        src = dict(base.named_parameters())
+        for b in range(B):
+            rb = K.ScaleKernel(K.RBFKernel())
+            with torch.no_grad():
+                for nme, p in rb.named_parameters():
+                    p.copy_(src[nme][b])
+            rep = K.InducingPointKernel(rb, (k.inducing_points[b] if zbatch else k.inducing_points).detach(), gpytorch.likelihoods.GaussianLikelihood())
+            rep.train(mode == "train")
+            reps.append(as_sym_arr(SH.get(dense(rep(x1, x2)))).copy())
+        full = dense(k(x1, x2))  # (fills the evaluation-mode caches of the batched kernel)
+        for b in range(B):
+            S.prove_eq(full[b], reps[b], "batched inducing-point kernel element %d = replica" % b)
+        lazy = k(x1, x2)
+        for b in reversed(range(B)):
+            S.prove_eq(S.must_not_raise("inducing-point kernel [%d]" % b, lambda: dense(k[b](x1, x2))), reps[b], "inducing-point kernel[%d] = replica %d" % (b, b))
+            S.prove_eq(S.must_not_raise("lazy inducing-point kernel matrix [%d]" % b, lambda: dense(lazy[b])), reps[b], "lazy inducing-point kernel matrix [%d] = replica %d" % (b, b))
+        again = dense(k(x1, x2))
+        for b in range(B):
+            S.prove_eq(again[b], reps[b], "batched inducing-point kernel AFTER indexing: element %d = replica" % b)
+
+
 def mean_grad(S, cls, pbs, dbs):
     """derivative-enabled mean modules in batch mode: element b = replica (value and derivative blocks)"""
     pbs, dbs = tuple(pbs), tuple(dbs)
@@ -422,6 +464,8 @@ def scenarios(tier, seed):
         add("exact_gp", n=2, m=1, shared_x=False)
         for kind in ("rbf+linear", "rbf*linear", "scale(rbf+rq)", "scale_rbf", "multitask"):
             add("kernel_index", kind=kind, B=2, diag=True)
+        add("inducing_index", zbatch=False, mode="eval")
+        add("inducing_index", zbatch=True, mode="train")
         add("variational", dist="cholesky", B=2, M=2, n=1)
         add("variational", dist="meanfield", B=3, M=1, n=2)
         add("variational_shapes", dist="cholesky", first="batched_first")
@@ -438,6 +482,9 @@ def scenarios(tier, seed):
         for kind in ("multitask", "periodic", "matern15", "poly3", "cosine", "constant", "rbf_grad", "matern52_grad", "poly_grad", "rbf_gradgrad"):
             for (p, d) in [((2,), (2,)), ((2,), ()), ((), (2,)), ((2,), (3, 2)), ((2, 1), (1, 2))]:
                 add("kernel", kind=kind, pbs=list(p), dbs1=list(d), dbs2=list(d))
+        for zbatch in (False, True):
+            for mode in ("train", "eval"):
+                add("inducing_index", zbatch=zbatch, mode=mode)
         for (p, d) in [((2,), (2,)), ((3,), ()), ((), (2,)), ((2,), (3, 2))]:
             add("hamming_batch", pbs=list(p), dbs=list(d))
         for cls in ("linear_grad", "linear_gradgrad", "constant_grad"):
